@@ -22,7 +22,9 @@ RULE = ('seeded PROXY v1 (TCP4/TCP6/UNKNOWN) and v2 (INET/INET6/UNIX/UNSPEC, '
         'PROXY/LOCAL, TLV tails) headers with boundary addresses and ports, '
         'their truncations, single-byte corruptions and random garbage, '
         'delivered under seeded segmenters and recv_into caps (1-3 bytes) and '
-        'followed by a payload, through each of the three mix-ins; '
+        'followed by a payload, through each of the three mix-ins; in 30% of '
+        'the scenarios 1-2 further connections with their own headers are '
+        'served by the same edge at the same time, each judged alone; '
         'non-trivial = header is corrupted/truncated, or delivery was cut '
         'inside the header; distinct = distinct event-log digest')
 COMPONENTS = {
@@ -36,8 +38,10 @@ BUDGET = {'quick': 60000, 'thorough': 1000000}
 PROBES = ['v1-tcp4', 'v1-tcp6', 'v1-unknown', 'v2-inet', 'v2-inet6', 'v2-unix',
           'v2-unspec', 'v2-local', 'v2-tlv', 'truncated', 'corrupted',
           'garbage', 'short-reads', 'mixin-auto', 'mixin-v1', 'mixin-v2',
-          'boundary-port', 'corrupted-still-valid']
-STATES_MEASURE = 'distinct (mixin, header kind, mutation, reference verdict) tuples'
+          'boundary-port', 'corrupted-still-valid',
+          'concurrent-connections']
+STATES_MEASURE = ('distinct (mixin, header kind, mutation, reference verdict, '
+                  'concurrent) tuples')
 STEP_CAP = 100000
 SIG2 = b'\r\n\r\n\x00\r\nQUIT\n'
 
@@ -217,9 +221,7 @@ def ref(mixin, data):
 
 
 # ---------------------------------------------------------------- generator
-def generate(seed, tier='quick'):
-    rng = random.Random(seed)
-    mixin = rng.choice(['auto', 'auto', 'v1', 'v2'])
+def gen_conn(rng, mixin):
     ver = rng.choice(['v1', 'v2']) if mixin == 'auto' else mixin
     if rng.random() < 0.07:
         ver = 'v2' if ver == 'v1' else 'v1'       # wrong version for mixin
@@ -276,13 +278,34 @@ def generate(seed, tier='quick'):
         else:
             h[14:16] = struct.pack('!H', len(hdr) - 16 + rng.choice([1, 50]))
         hdr = bytes(h)
-    return {'property': ID, 'harness': 'wire', 'seed': seed,
-            'sched_seed': rng.getrandbits(48), 'mixin': mixin, 'kind': kind,
+    return {'kind': kind,
             'mut': mut, 'header': hdr.hex(), 'payload': payload.hex(),
             'segmenter': rng.choice(['whole', 'byte', 'few', 'cuts', 'chunk']),
             'seg_param': rng.choice([None, 0.3, 3]),
             'read_cap': rng.choice([None, None, 1, 2, 3]),
             'lat': rng.choice([0, 1])}
+
+
+def generate(seed, tier='quick'):
+    rng = random.Random(seed)
+    mixin = rng.choice(['auto', 'auto', 'v1', 'v2'])
+    scn = {'property': ID, 'harness': 'wire', 'seed': seed, 'mixin': mixin}
+    scn.update(gen_conn(rng, mixin))
+    scn['sched_seed'] = rng.getrandbits(48)
+    if rng.random() < 0.3:
+        # other connections served by the same edge at the same time: each
+        # is judged on its own (a parser must keep no state across them)
+        scn['peers'] = []
+        for _ in range(rng.choice([1, 1, 2])):
+            c = gen_conn(rng, mixin)
+            c['lat'] = 1
+            if c['segmenter'] == 'whole':
+                c['segmenter'] = rng.choice(['byte', 'few', 'cuts', 'chunk'])
+            scn['peers'].append(c)
+        scn['lat'] = 1
+        if scn['segmenter'] == 'whole':
+            scn['segmenter'] = rng.choice(['byte', 'few', 'cuts', 'chunk'])
+    return scn
 
 
 def execute(scn, debug=False):
@@ -291,146 +314,169 @@ def execute(scn, debug=False):
         ProxyProtocolV2
     world = World(scn['sched_seed'], step_cap=STEP_CAP, debug=debug)
     try:
-        hdr = bytes.fromhex(scn['header'])
-        payload = bytes.fromhex(scn['payload'])
-        data = hdr + payload
-        rec = {}
-
         class Stub(EdgeServer):
             def handle(self, sock, addr):
-                rec['addr'] = addr
-                rec['consumed'] = sock.rx.consumed
+                sock.c18_rec['addr'] = addr
+                sock.c18_rec['consumed'] = sock.rx.consumed
 
         mix = {'auto': ProxyProtocol, 'v1': ProxyProtocolV1,
                'v2': ProxyProtocolV2}[scn['mixin']]
         E = type('E', (mix, Stub), {})
         edge = E(None, None, hostname='e.sim')
-        mode = scn['segmenter']
-        param = scn['seg_param']
-        if mode == 'cuts' and not isinstance(param, float):
-            param = 0.3
-        if mode == 'chunk' and not isinstance(param, int):
-            param = 3
-        a, b = net.socketpair(
-            world, 'pp', a_opts={'segmenter': mode, 'seg_param': param,
-                                 'latency': net.LAT_SMALL if scn['lat']
-                                 else net.LAT_ZERO},
-            b_opts={'read_cap': scn['read_cap']})
-        a.sendall(data)
-        a.shutdown(2)
-        out = {}
+        conns = [scn] + list(scn.get('peers') or [])
+        running = []
+        for ci, c in enumerate(conns):
+            mode = c['segmenter']
+            param = c['seg_param']
+            if mode == 'cuts' and not isinstance(param, float):
+                param = 0.3
+            if mode == 'chunk' and not isinstance(param, int):
+                param = 3
+            a, b = net.socketpair(
+                world, 'pp%d' % ci if ci else 'pp',
+                a_opts={'segmenter': mode, 'seg_param': param,
+                        'latency': net.LAT_SMALL if c['lat']
+                        else net.LAT_ZERO},
+                b_opts={'read_cap': c['read_cap']})
+            rec, out = {}, {}
+            b.c18_rec = rec
+            a.sendall(bytes.fromhex(c['header']) + bytes.fromhex(c['payload']))
+            a.shutdown(2)
 
-        def run():
-            try:
-                edge.handle(b, ('10.9.9.9', 4444))
-                out['ok'] = True
-            except BaseException as e:
-                import traceback
-                tb = traceback.extract_tb(e.__traceback__)
-                out['exc'] = (type(e).__name__, str(e)[:80],
-                              tb[-1].name if tb else '?')
-        g = gevent.spawn(run)
-        ok = world.wait(g, 120.0)
+            def run(b=b, out=out, ci=ci):
+                try:
+                    edge.handle(b, ('10.9.9.9', 4444 + ci))
+                    out['ok'] = True
+                except BaseException as e:
+                    import traceback
+                    tb = traceback.extract_tb(e.__traceback__)
+                    out['exc'] = (type(e).__name__, str(e)[:80],
+                                  tb[-1].name if tb else '?')
+            running.append((c, rec, out, gevent.spawn(run)))
         violations = []
-        r = ref(scn['mixin'], data)
-        world.probe('mixin-' + scn['mixin'])
-        world.probe(scn['kind'])
-        if scn['mut'] == 'trunc':
-            world.probe('truncated')
-        if scn['mut'] in ('corrupt', 'targeted'):
-            world.probe('corrupted')
-            if r != 'ambiguous' and r[0] == 'valid':
-                world.probe('corrupted-still-valid')
-        if scn['mut'] == 'garbage':
-            world.probe('garbage')
-        if scn['read_cap']:
-            world.probe('short-reads')
-        if b' 65535 ' in hdr or b' 0 ' in hdr or hdr.endswith(b' 65535\r\n'):
-            world.probe('boundary-port')
-        if len(hdr) > 16 and hdr[:12] == SIG2 and scn['mut'] == 'none':
-            ln = struct.unpack('!H', hdr[14:16])[0]
-            need = {0: 0, 1: 12, 2: 36, 3: 216}.get(hdr[13] >> 4, 0)
-            if ln > need:
-                world.probe('v2-tlv')
-
-        def bad(clause, msg, **det):
-            det.setdefault('mixin', scn['mixin'])
-            violations.append({'clause': clause, 'detail': det, 'msg': msg})
-        verdict = r if r == 'ambiguous' else r[0]
-        if not ok:
-            bad('C18/hang', 'the parser did not return: %s' %
-                world.blocked_report())
-        elif 'exc' in out:
-            bad('C18/exception-escaped',
-                '%s escaped handle(): %s (raised in %s) for header %r' % (
-                    out['exc'][0], out['exc'][1], out['exc'][2], hdr[:60]),
-                exc=out['exc'][0], where=out['exc'][2])
-        elif r == 'ambiguous':
-            pass
-        elif r[0] == 'valid':
-            want, n = r[1], r[2]
-            if 'addr' not in rec:
-                bad('C18/address', 'well-formed header %r: the connection was '
-                    'dropped' % hdr[:60], what='dropped')
-            else:
-                got = rec['addr']
-                if want is None:
-                    good = got == (None, None)
-                elif isinstance(want, bytes):
-                    good = got == want
-                else:
-                    try:
-                        good = (ipaddress.ip_address(got[0]) == want[0] and
-                                got[1] == want[1])
-                    except Exception:
-                        good = False
-                if not good:
-                    bad('C18/address', 'header %r encodes source %r, the edge '
-                        'was given %r' % (hdr[:60], want, got),
-                        kind=scn['kind'])
-                elif rec['consumed'] > n:
-                    bad('C18/over-read', 'header is %d bytes, %d were consumed '
-                        '(payload %r eaten)' % (n, rec['consumed'],
-                                                data[n:rec['consumed']]),
-                        kind=scn['kind'])
-                elif rec['consumed'] < n:
-                    bad('C18/under-read', 'header is %d bytes, only %d were '
-                        'consumed' % (n, rec['consumed']), kind=scn['kind'])
-        elif r[0] == 'local':
-            if 'addr' in rec:
-                bad('C18/address', 'LOCAL command: the edge handler was '
-                    'invoked with %r' % (rec['addr'],), what='local')
-        else:
-            limit = r[1]
-            if 'addr' not in rec:
-                bad('C18/address', 'malformed header %r: the connection was '
-                    'dropped instead of proceeding with the invalid address'
-                    % hdr[:60], what='dropped-malformed')
-            else:
-                if rec['addr'] != (None, None):
-                    bad('C18/accepted-malformed', 'header %r is not '
-                        'well-formed but the edge was given %r' % (
-                            hdr[:70], rec['addr']), kind=scn['kind'],
-                        how=_how(scn, hdr))
-                elif rec['consumed'] > limit:
-                    bad('C18/over-read', 'malformed header: %d bytes consumed, '
-                        'limit %d' % (rec['consumed'], limit),
-                        kind=scn['kind'], what='malformed')
+        verdicts = []
+        if len(conns) > 1:
+            world.probe('concurrent-connections')
+        for ci, (c, rec, out, g) in enumerate(running):
+            ok = world.wait(g, 120.0)
+            verdicts.append(_judge(world, scn, c, rec, out, ok, violations,
+                                   concurrent=len(conns) > 1))
+        hdr = bytes.fromhex(scn['header'])
         cutinside = scn['segmenter'] != 'whole' or scn['read_cap']
         return {
             'violations': violations[:2], 'digest': world.digest(),
             'nontrivial': bool(scn['mut'] != 'none' or cutinside),
             'probes': dict(world.probes), 'faults': dict(world.faults),
-            'states': [hash((scn['mixin'], scn['kind'], scn['mut'], verdict))],
+            'states': [hash((scn['mixin'], c['kind'], c['mut'], v,
+                             len(conns) > 1))
+                       for c, v in zip(conns, verdicts)],
             'steps': world.loop.steps, 'sim_s': world.loop.elapsed(),
             'inconclusive': world.loop.cap_hit,
             'harness_errors': list(world.harness_errors),
             'summary': {'mixin': scn['mixin'], 'kind': scn['kind'],
                         'mut': scn['mut'], 'header': repr(hdr[:80]),
-                        'reference': repr(r)[:120], 'got': repr(rec)},
+                        'connections': len(conns),
+                        'reference': [repr(ref(scn['mixin'], bytes.fromhex(
+                            c['header']) + bytes.fromhex(c['payload'])))[:120]
+                            for c in conns],
+                        'got': [repr(r[1]) for r in running]},
         }
     finally:
         world.close()
+
+
+def _judge(world, scn, c, rec, out, ok, violations, concurrent=False):
+    """one connection against the reference parser"""
+    hdr = bytes.fromhex(c['header'])
+    data = hdr + bytes.fromhex(c['payload'])
+    r = ref(scn['mixin'], data)
+    world.probe('mixin-' + scn['mixin'])
+    world.probe(c['kind'])
+    if c['mut'] == 'trunc':
+        world.probe('truncated')
+    if c['mut'] in ('corrupt', 'targeted'):
+        world.probe('corrupted')
+        if r != 'ambiguous' and r[0] == 'valid':
+            world.probe('corrupted-still-valid')
+    if c['mut'] == 'garbage':
+        world.probe('garbage')
+    if c['read_cap']:
+        world.probe('short-reads')
+    if b' 65535 ' in hdr or b' 0 ' in hdr or hdr.endswith(b' 65535\r\n'):
+        world.probe('boundary-port')
+    if len(hdr) > 16 and hdr[:12] == SIG2 and c['mut'] == 'none':
+        ln = struct.unpack('!H', hdr[14:16])[0]
+        need = {0: 0, 1: 12, 2: 36, 3: 216}.get(hdr[13] >> 4, 0)
+        if ln > need:
+            world.probe('v2-tlv')
+
+    def bad(clause, msg, **det):
+        det.setdefault('mixin', scn['mixin'])
+        if concurrent:
+            det['concurrent'] = True
+            msg += ' (one of several connections served at the same time)'
+        violations.append({'clause': clause, 'detail': det, 'msg': msg})
+    verdict = r if r == 'ambiguous' else r[0]
+    if not ok:
+        bad('C18/hang', 'the parser did not return: %s' %
+            world.blocked_report())
+    elif 'exc' in out:
+        bad('C18/exception-escaped',
+            '%s escaped handle(): %s (raised in %s) for header %r' % (
+                out['exc'][0], out['exc'][1], out['exc'][2], hdr[:60]),
+            exc=out['exc'][0], where=out['exc'][2])
+    elif r == 'ambiguous':
+        pass
+    elif r[0] == 'valid':
+        want, n = r[1], r[2]
+        if 'addr' not in rec:
+            bad('C18/address', 'well-formed header %r: the connection was '
+                'dropped' % hdr[:60], what='dropped')
+        else:
+            got = rec['addr']
+            if want is None:
+                good = got == (None, None)
+            elif isinstance(want, bytes):
+                good = got == want
+            else:
+                try:
+                    good = (ipaddress.ip_address(got[0]) == want[0] and
+                            got[1] == want[1])
+                except Exception:
+                    good = False
+            if not good:
+                bad('C18/address', 'header %r encodes source %r, the edge '
+                    'was given %r' % (hdr[:60], want, got),
+                    kind=c['kind'])
+            elif rec['consumed'] > n:
+                bad('C18/over-read', 'header is %d bytes, %d were consumed '
+                    '(payload %r eaten)' % (n, rec['consumed'],
+                                            data[n:rec['consumed']]),
+                    kind=c['kind'])
+            elif rec['consumed'] < n:
+                bad('C18/under-read', 'header is %d bytes, only %d were '
+                    'consumed' % (n, rec['consumed']), kind=c['kind'])
+    elif r[0] == 'local':
+        if 'addr' in rec:
+            bad('C18/address', 'LOCAL command: the edge handler was '
+                'invoked with %r' % (rec['addr'],), what='local')
+    else:
+        limit = r[1]
+        if 'addr' not in rec:
+            bad('C18/address', 'malformed header %r: the connection was '
+                'dropped instead of proceeding with the invalid address'
+                % hdr[:60], what='dropped-malformed')
+        else:
+            if rec['addr'] != (None, None):
+                bad('C18/accepted-malformed', 'header %r is not '
+                    'well-formed but the edge was given %r' % (
+                        hdr[:70], rec['addr']), kind=c['kind'],
+                    how=_how(c, hdr))
+            elif rec['consumed'] > limit:
+                bad('C18/over-read', 'malformed header: %d bytes consumed, '
+                    'limit %d' % (rec['consumed'], limit),
+                    kind=c['kind'], what='malformed')
+    return verdict
 
 
 def _how(scn, hdr):
@@ -451,6 +497,19 @@ def _how(scn, hdr):
 
 
 def shrink_candidates(scn, clause):
+    peers = scn.get('peers') or []
+    for i in range(len(peers)):
+        c = dict(scn)
+        c['peers'] = peers[:i] + peers[i + 1:]
+        if not c['peers']:
+            del c['peers']
+        yield c
+    for i in range(len(peers)):
+        if peers[i]['payload']:
+            c = dict(scn)
+            c['peers'] = [dict(x) for x in peers]
+            c['peers'][i]['payload'] = ''
+            yield c
     if scn['segmenter'] != 'whole':
         c = dict(scn)
         c['segmenter'] = 'whole'
